@@ -23,7 +23,7 @@ PROFILES = {
     "C03": dict(tags={"object", "refs", "HEAD", "index", "exit"}, names=None,
                 weights={"hostile": 14, "update-ref": 4, "reset": 6, "branch-rename": 3}),
     "C04": dict(tags={"index", "work tree", "object", "exit"}, names={"add", "rm"},
-                weights={"add": 22, "rm": 12, "edit": 30}, p_invalid=0.12),
+                weights={"add": 22, "rm": 12, "edit": 30}, p_invalid=0.12, fd_conflicts=True),
     "C05": dict(tags={"index", "output", "exit"}, names={"reset", "cat-file", "ls-files"},
                 weights={"reset": 10, "cat-file": 10, "commit": 14, "add": 16, "rm": 5, "ls-files": 4}),
     "C06": dict(tags={"index", "exit"}, names={"add", "rm", "restore", "restore-staged", "reset"},
@@ -38,7 +38,8 @@ PROFILES = {
                 weights={"reset": 14, "reflog": 8, "commit": 14, "switch": 4, "switch-c": 3, "edit": 24}),
     "C09": dict(tags={"index", "work tree", "exit"}, names={"restore", "restore-staged"},
                 weights={"restore": 14, "restore-staged": 14, "edit": 28, "add": 14, "commit": 8},
-                components=[b"d", b"ad", b"d-old", b"a+b", b"d(", b"x", b"lib", b"lib.go", b"f"], depths=[1, 2, 2, 3, 4, 4]),
+                components=[b"d", b"ad", b"d-old", b"a+b", b"d(", b"x", b"lib", b"lib.go", b"f"], depths=[1, 2, 2, 3, 4, 4],
+                fd_conflicts=True),
     "C10": dict(tags={"refs", "HEAD", "exit", "output"},
                 names={"branch", "branch-list", "branch-rename", "branch-delete", "switch", "switch-c", "update-ref",
                        "rev-parse", "commit", "reset"},
@@ -58,14 +59,20 @@ PROFILES = {
                 components=[b"f", b"g", b"h"], depths=[1, 1, 2], contents=[b"1\n", b"2\n", b""]),
     "C17": dict(tags={"index", "output", "exit"}, names={"add", "status", "reset", "restore"},
                 weights={"add": 22, "status": 10, "edit": 30, "reset": 4, "restore": 4, "commit": 6}, ignore=True),
-    "C18": dict(tags=ALL_TAGS, names=None, weights={"hostile": 16}, p_invalid=0.15),
+    "C18": dict(tags=ALL_TAGS, names=None, weights={"hostile": 16}, p_invalid=0.15, fd_conflicts=True),
     "C20": dict(tags={"LCFG", "GCFG", "object", "exit"}, names={"config", "commit"},
                 weights={"config": 24, "commit": 10, "add": 10, "edit": 14}, identity=False),
 }
 for _p in ("C15", "C16", "C19"):
     PROFILES[_p] = dict(tags=ALL_TAGS, names=None, weights={})
 
-IGNORE_FILES = [b"out/\n", b"*.log\n", b"out/\n*.log\n", b"sub/\n", b"n.txt\n", b"src/out/\n*.txt\n"]
+IGNORE_FILES = [b"out/\n", b"*.log\n", b"out/\n*.log\n", b"sub/\n", b"n.txt\n", b"src/out/\n*.txt\n",
+                b"out\n", b"sub\nlib.go\n", b"src\n"]
+# the path components an ignore file talks about: they join the history's vocabulary, otherwise most
+# histories would never create a path the patterns apply to
+IGNORE_WORDS = {b"out/\n": [b"out"], b"*.log\n": [b"a.log", b"a.logx"], b"out/\n*.log\n": [b"out", b"a.log"],
+                b"sub/\n": [b"sub"], b"n.txt\n": [b"n.txt"], b"src/out/\n*.txt\n": [b"src", b"out", b"n.txt"],
+                b"out\n": [b"out", b"src"], b"sub\nlib.go\n": [b"sub", b"lib.go", b"lib"], b"src\n": [b"src", b"a"]}
 
 
 def relevant(prop, step, diff):
@@ -203,11 +210,21 @@ def gen_history(seed, prop, nsteps):
         pre.append(_E("write", parent + pair[1] + b"/" + rng.choice(prof["components"]), gen.content(rng)))
     if prof.get("ignore") and rng.random() < 0.8:
         from hist import Edit
-        pre.append(Edit("write", b".goitignore", rng.choice(IGNORE_FILES)))
+        ign = rng.choice(IGNORE_FILES)
+        words = IGNORE_WORDS.get(ign, [])
+        prof["components"] = prof["components"] + [w for w in words if w not in prof["components"]]
+        if words and rng.random() < 0.7:
+            # a tracked file two levels down inside a directory the patterns name, and one beside it
+            top = rng.choice([c for c in prof["components"] if c not in words] or [b"a"])
+            pre.append(Edit("write", top + b"/" + words[0] + b"/" + rng.choice(prof["components"]), gen.content(rng)))
+            pre.append(Edit("write", top + b"/" + rng.choice(prof["components"]), gen.content(rng)))
+        pre.append(Edit("write", b".goitignore", ign))
 
     def nxt(snap, i):
         if i < len(pre):
             return pre[i]
+        if prof.get("queue"):
+            return prof["queue"].pop(0)       # the rest of a multi-step edit
         return gen.gen_step(rng, snap, prof)
     return nxt
 
